@@ -15,7 +15,7 @@ RULE = (
     "reverse on/off; varargs vs single-iterable call forms; wrong call forms. Oracle: the builtin (map, filter, "
     "itertools.filterfalse, sorted, max, min, a two-way partition) applied to the same data with the synchronous twin - "
     "same result with element IDENTITY compared, or the same exception type; with a blocking key exactly one flush per "
-    "helper invocation. aretry: every (k, max_tries) in 0..5 x 1..5, listed / unlisted / tuple-of-classes exceptions: "
+    "helper invocation. aretry: every (k, max_tries) in 0..5 x 1..5, listed / unlisted / tuple-of-classes exceptions, x body kind {plain function, generator, raising after a batch flush, async_proxy raising while the future is created, async_proxy returning a failing task, failure coming from an awaited child} x {sync call, .asynq().value(), yielded from a task}: "
     "executions = min(k+1, max_tries), unlisted re-raised at once. distinct = (helper, input hash); non-trivial = at "
     "least 2 elements."
 )
@@ -154,6 +154,14 @@ def run_aretry(res):
     class Other(Exception):
         pass
 
+    from asynq import async_proxy, ConstFuture
+    from asynq.batching import DebugBatchItem
+
+    @A()
+    def yielder(f, a, k):
+        v = yield f.asynq(*a, **k)
+        return v
+
     n = 0
     for listed in ("single", "tuple"):
         for k in range(0, 6):
@@ -161,40 +169,100 @@ def run_aretry(res):
                 for raised in ("listed", "listed2", "other"):
                     if raised == "listed2" and listed == "single":
                         continue
-                    runs = [0]
-                    exc_cls = E1 if listed == "single" else (E1, E2)
-                    which = {"listed": E1, "listed2": E2, "other": Other}[raised]
+                    for body in ("plain", "generator", "after_batch", "proxy_sync_raise", "proxy_failed_future", "child_raises"):
+                        runs = [0]
+                        exc_cls = E1 if listed == "single" else (E1, E2)
+                        which = {"listed": E1, "listed2": E2, "other": Other}[raised]
 
-                    @aretry(exc_cls, max_tries=max_tries, sleep=0)
-                    @A()
-                    def fn(x, y=1):
-                        runs[0] += 1
-                        if runs[0] <= k:
-                            raise which(runs[0])
-                        return ("ok", x, y)
+                        @A()
+                        def child(i):
+                            yield None
+                            raise which(i)
 
-                    for how in ("sync", "asynq"):
-                        runs[0] = 0
-                        out = outcome((lambda: fn(3, y=4)) if how == "sync" else (lambda: fn.asynq(3, y=4).value()))
-                        if raised == "other" and k > 0:
-                            want_runs, want = 1, ("exc", "Other")
+                        if body == "plain":
+                            # ordinary function body: raises when the task is run
+                            @A()
+                            def inner(x, y=1):
+                                runs[0] += 1
+                                if runs[0] <= k:
+                                    raise which(runs[0])
+                                return ("ok", x, y)
+
+                        elif body == "generator":
+                            @A()
+                            def inner(x, y=1):
+                                runs[0] += 1
+                                yield None
+                                if runs[0] <= k:
+                                    raise which(runs[0])
+                                return ("ok", x, y)
+
+                        elif body == "after_batch":
+                            # raises after having been suspended for a batch flush
+                            @A()
+                            def inner(x, y=1):
+                                runs[0] += 1
+                                yield DebugBatchItem("c14retry", runs[0])
+                                if runs[0] <= k:
+                                    raise which(runs[0])
+                                return ("ok", x, y)
+
+                        elif body == "proxy_sync_raise":
+                            # an async_proxy body fails while the attempt's future is being CREATED
+                            @async_proxy()
+                            def inner(x, y=1):
+                                runs[0] += 1
+                                if runs[0] <= k:
+                                    raise which(runs[0])
+                                return ConstFuture(("ok", x, y))
+
+                        elif body == "proxy_failed_future":
+                            # an async_proxy body hands back a task that fails when awaited
+                            @async_proxy()
+                            def inner(x, y=1):
+                                runs[0] += 1
+                                if runs[0] <= k:
+                                    return child.asynq(runs[0])
+                                return ConstFuture(("ok", x, y))
+
                         else:
-                            want_runs = min(k + 1, max_tries)
-                            want = ("val", ("ok", 3, 4)) if k < max_tries else ("exc", which.__name__)
-                        n += 1
-                        res["evaluations"] += 1
-                        res["nontrivial"].append(hash(("aretry", listed, k, max_tries, raised, how)) & 0xFFFFFFFFFF)
-                        if runs[0] != want_runs or out != want:
-                            res["violations"].append(
-                                {
-                                    "oracle": "aretry",
-                                    "mechanism": "aretry",
-                                    "detail": {"k": k, "max_tries": max_tries, "raised": raised, "listed": listed, "how": how, "executions": runs[0], "expected_executions": want_runs, "outcome": out, "expected": want},
-                                    "case": {"mode": "aretry", "cases": [0, 1]},
-                                }
-                            )
+                            # the failure comes out of a task the body awaits
+                            @A()
+                            def inner(x, y=1):
+                                runs[0] += 1
+                                if runs[0] <= k:
+                                    yield child.asynq(runs[0])
+                                return ("ok", x, y)
+
+                        fn = aretry(exc_cls, max_tries=max_tries, sleep=0)(inner)
+                        for how in ("sync", "asynq", "yielded"):
+                            runs[0] = 0
+                            call = {
+                                "sync": lambda: fn(3, y=4),
+                                "asynq": lambda: fn.asynq(3, y=4).value(),
+                                "yielded": lambda: yielder(fn, (3,), {"y": 4}),
+                            }[how]
+                            out = outcome(call)
+                            if raised == "other" and k > 0:
+                                want_runs, want = 1, ("exc", "Other")
+                            else:
+                                want_runs = min(k + 1, max_tries)
+                                want = ("val", ("ok", 3, 4)) if k < max_tries else ("exc", which.__name__)
+                            n += 1
+                            res["evaluations"] += 1
+                            c["aretry_body_" + body] = c.get("aretry_body_" + body, 0) + 1
+                            res["nontrivial"].append(hash(("aretry", listed, k, max_tries, raised, how, body)) & 0xFFFFFFFFFF)
+                            if (runs[0] != want_runs or out != want) and len(res["violations"]) < 8:
+                                res["violations"].append(
+                                    {
+                                        "oracle": "aretry",
+                                        "mechanism": "aretry/" + body,
+                                        "detail": {"k": k, "max_tries": max_tries, "raised": raised, "listed": listed, "how": how, "body": body, "executions": runs[0], "expected_executions": want_runs, "outcome": out, "expected": want},
+                                        "case": {"mode": "aretry", "cases": [0, 1]},
+                                    }
+                                )
     c["aretry_cases"] = n
-    res["samples"].append({"aretry": "all (k, max_tries) in 0..5 x 1..5, listed/unlisted, single class / tuple, sync and .asynq()"})
+    res["samples"].append({"aretry": "all (k, max_tries) in 0..5 x 1..5, listed/unlisted, single class / tuple, 6 body kinds, sync / .asynq().value() / yielded"})
 
 
 def run_unit(unit, progress):
